@@ -23,6 +23,20 @@ CLAIMED = {
     },
 }
 
+CLAIMED["C17"] = {
+    "text": "Lean theorems about the model of str::lines/StringBuffer/CellBuffer::from: for every CR-free document "
+            "the drawn part yields the same cells and quoted texts after LF->CRLF conversion (lines_crlf) and after "
+            "appending any number of blank lines; the legend's line terminator consumes CRLF as one unit. Trailing "
+            "blanks inside rows and the whole legend grammar are covered by the correspondence (front-end dump of "
+            "model vs implementation on every variant) and by the property's oracle (parsed output of each variant "
+            "equals the base document's) on the implementation.",
+    "note": "Trusted: Lean kernel; hand-written model of lines/StringBuffer/legend grammar validated by correspondence; "
+            "theorems are about the front end (the rest of the conversion is a function of its result); trailing "
+            "blanks per row not yet a theorem.",
+    "technique": "Lean 4 proof over executable model + differential correspondence (front end) + variant oracle on implementation",
+    "design_ref": "5 (C17)",
+}
+
 NOT_YET = {
 }
 
